@@ -33,7 +33,8 @@ EXPLANATION = (
     "colon-separated single-line body falls out of the construct; (R10) the FOR increment adds the step as it was evaluated: followed symbolically through the register moves of the FOR template, the step reaches the Plus of the increment without passing through Cast (the equivalent WHILE converts the sum once, not the step and then the sum)."
     " (R10, extended) the STEP of a FOR is evaluated once, by the FOR line: the second operand of the increment is a value computed before the loop (a variable of the generator's own making, followed as a cell through the template), never an expression evaluated again inside it."
     " (R5, extended) the names of the generator's own variables are built like labels: purpose and whole position, fields separated, and contain a character no identifier contains."
-    " (R13) every call of the converting expression emitter is directly followed by an emission that consumes A into a typed place (a store, PushNamed, VarPathIndex): nothing that is only compared is converted first.")
+    " (R13) every call of the converting expression emitter is directly followed by an emission that consumes A into a typed place (a store, PushNamed, VarPathIndex): nothing that is only compared is converted first."
+    " (R14) after the parser nothing chooses an operator: the operator of every BinaryExpression / UnaryExpression node the checker or the generator builds is the operator of the node it is built from, followed through parameters to the callers.")
 NOT_DECIDED = [
     "the listed rewrite equivalences themselves (FOR = WHILE, SELECT = IF chain ...): relational "
     "properties of run-time behaviour",
